@@ -250,6 +250,24 @@ Fixpoint loop (cfg : config) (sc : scenario) (st : lstate) (script : list outcom
     end
   end.
 
+(* The context each DialContext / Connect call of the loop runs under is the loop's variable ctx:
+   the caller's context until the first success, context.Background() afterwards (doneOnce,
+   reconnclient.go:108-112). It is finished iff the caller's context was cancelled and no
+   connection has succeeded yet. *)
+Definition ctx_done (st : lstate) : bool := l_cancel st && negb (l_first st).
+
+(* for every iteration the loop starts: is the context it passes to DialContext already finished? *)
+Fixpoint dial_ctx_done (cfg : config) (sc : scenario) (st : lstate) (script : list outcome) : list bool :=
+  match script with
+  | [] => []
+  | o :: rest =>
+    ctx_done st ::
+    match iteration cfg sc st o with
+    | (_, Running st') => dial_ctx_done cfg sc st' rest
+    | _ => []
+    end
+  end.
+
 (* Disconnect called after the loop has exited for another reason (cancelled / graceful end) *)
 Definition post_disconnect (cfg : config) (st : lstate) : list ev :=
   EvStop SDisconnect :: (if l_started st || c_guard cfg then [EvDiscReturned] else [EvPanic]).
